@@ -18,3 +18,5 @@ open HmcVerif.C13
 #print axioms normal_encodings_agree
 #print axioms normal_scalar_is_constant_vector
 #print axioms normal_det_diagonal
+#print axioms mixture_shift_invariant
+#print axioms mixture_grad_shift_invariant
